@@ -50,6 +50,9 @@ CANDS_DEEP.update({"r/a/x/y": "dir", "r/a/x/y/v.py": "file", "r/a/x/y/vv.py": "f
 CANDS_BIG = dict(CANDS)
 CANDS_BIG.update({"r/c": "dir", "r/c/__init__.py": "file", "r/c/d.py": "file", "r/a/x/w.py": "file", "r/a/mm.py": "file"})
 
+# a scanned package whose own name starts with (or equals) the root directory's name
+CANDS_PFX = {"r": "dir", "r/rb": "dir", "r/rb/m.py": "file", "r/rb/n.py": "file", "r/r": "dir", "r/r/m.py": "file", "r/r/n.py": "file", "r/k.py": "file"}
+
 LINESETS = {
     "qualified": {
         "r/a/m.py": ["import r.ab", "from r.a.x import u"],
@@ -69,6 +72,11 @@ LINESETS = {
         "r/c/d.py": ["from r.a.x import u, w"],
         "r/a/x/w.py": ["from . import u"],
         "r/c/__init__.py": ["from .d import thing"],
+    },
+    "prefixpkg": {
+        "r/rb/m.py": ["import rb.n", "from rb import n", "import r.rb.n"],
+        "r/r/m.py": ["import r.n", "from r import n", "import r.r.n"],
+        "r/rb/n.py": ["from rb.m import thing"],
     },
     "deep": {
         "r/a/x/y/v.py": ["from . import vv", "from ... import m", "import r.a.x.u"],
@@ -195,7 +203,7 @@ def judge(model: FSModel, view, mp_rel: str, got, full=None):
 
 
 def make_model(inst) -> FSModel:
-    cands = CANDS_DEEP if inst["lines"] == "deep" else CANDS_BIG if inst["lines"] == "big" else CANDS
+    cands = CANDS_DEEP if inst["lines"] == "deep" else CANDS_BIG if inst["lines"] == "big" else CANDS_PFX if inst["lines"] == "prefixpkg" else CANDS
     mp = inst["mp"]
     fixed = {}
     p = mp
@@ -222,6 +230,8 @@ def instances(tier: str) -> list[dict]:
             out.append({"part": "scan", "mp": mp, "entry": entry, "lines": "qualified", "relational": mp != "r", "cap": CAPS[tier]})
     for mp in ("r/a", "r/a/x"):
         out.append({"part": "scan", "mp": mp, "entry": "path", "lines": "parent-relative", "relational": False, "cap": CAPS[tier]})
+    for mp in ("r/rb", "r/r"):
+        out.append({"part": "scan", "mp": mp, "entry": "path", "lines": "prefixpkg", "relational": False, "cap": CAPS[tier]})
     if tier == "thorough":
         big_fixed = {"r/notes.txt": False, "r/empty": False, "r/a_b": False}
         for mp in ("r", "r/a", "r/c", "r/a/x"):
@@ -296,7 +306,7 @@ def run(tier: str, only: str | None = None) -> int:
     rep.bounds = {
         "candidate_paths": sorted(CANDS_DEEP),
         "depth": "<= 5 path components (root r, r/a/x/y/v.py)",
-        "module_paths": ["r", "r/a", "r/a/x", "r/a_b", "r/a/x/y"],
+        "module_paths": ["r", "r/a", "r/a/x", "r/a_b", "r/a/x/y", "r/rb", "r/r"],
         "entry_points": ["get_evaluable_architecture", "get_evaluable_architecture_for_module_objects"],
         "line_sets": LINESETS,
         "path_cap_per_instance": CAPS[tier],
